@@ -42,7 +42,16 @@
 //! emitted with a NULL min/max although it has a value (the code guards only the opposite arrival
 //! order, see `should_drop_null_group_that_loses_to_topk`). Low severity: NULLs rank last, a
 //! Sort(fetch=k) above never selects the phantom row. Excluded by `known_signature`
-//! (VF_C06_NO_KNOWN=1 switches the exclusion off for verifying the repair).
+//! (VF_C06_NO_KNOWN=1 switches the exclusion off; with the repair applied through mutrun seeds 0-2
+//! pass with the exclusion off, without it seed 0 fails within ~100 cases).
+//! Genuine finding 2 (thorough tier; open entry `ordered-partial-reduce:spill-order`, case
+//! /verif/regressions/C06/c06/partial-reduce-ordered-spill.json, proposed repair
+//! /verif/fixes/C06-spill-order-ignores-declared-ordering.diff): GroupedHashAggregateStream (the
+//! fallback every PartialReduce stage uses under a finite memory pool) sorts its spill runs by the
+//! group columns in *schema* order (only the sort options are taken from the output ordering), so
+//! with input ordered on e.g. the 2nd group key the stage's output after a spill is not ordered as
+//! declared ([k1 DESC]); SortPreservingMerge + the ordered Final above then emit a group twice
+//! (64 rows for 63 groups).
 //! Observation (not a C06 matter, classified inconclusive): under a memory limit the hash streams
 //! raise `Internal error: … hash aggregate ran out of memory with no aggregated groups` instead of
 //! ResourcesExhausted when even an empty table cannot be reserved.
@@ -745,7 +754,7 @@ impl Property for C06 {
         C06::case_strategy(tier)
     }
     fn budget(&self, tier: Tier) -> Budget {
-        Budget::new(tier.pick(6_000, 60_000), tier.pick(8, 16)).min_nontrivial(tier.pick(800, 10_000)).case_timeout(180)
+        Budget::new(tier.pick(4_000, 60_000), tier.pick(8, 16)).min_nontrivial(tier.pick(600, 10_000)).case_timeout(180)
     }
     fn rule(&self) -> String {
         "table with 0-3 typed group keys (small NULL/duplicate-heavy domains), six value columns, ORDER BY / FILTER columns, partitions, batch cuts, encodings; 0-4 aggregates; plan shape × ordered input × grouped TopK × skip-partial × memory limit × batch size × migration flag; \
@@ -772,6 +781,13 @@ impl Property for C06 {
         // group has a value, when the value row lost against the full heap before a NULL-valued
         // row of the same group arrives. Shape: ordered limit + min/max + some group whose
         // aggregated column holds both NULL and non-NULL cells.
+        // open finding: an ordered aggregate stage running on the GroupedHashAggregateStream fallback
+        // (always the case for PartialReduce under a finite memory pool) sorts its spill runs in
+        // group-schema column order, so after a spill its output no longer has the declared
+        // ordering and an order-dependent parent (SortPreservingMerge + ordered Final) splits groups.
+        if matches!(case.shape, Shape::PartialReduce { .. }) && case.ordered.is_some() && case.opts.mem_limit.is_some() && case.keep_order {
+            return Some("ordered-partial-reduce:spill-order".into());
+        }
         if let (Some(t), [a]) = (&case.topk, case.aggs.as_slice()) {
             if !t.soft && matches!(a.kind, AggKind::Min | AggKind::Max) && case.keys.len() == 1 {
                 let c = a.col as usize;
@@ -938,6 +954,10 @@ fn run_case(case: &Case) -> CaseResult {
         Err(ExecErr::Harness(m)) => return CaseResult::discard(format!("harness: {m}")).labels(labels),
         Err(ExecErr::Other(m)) => return CaseResult::violation(format!("execution failed: {m}")).labels(labels),
     };
+    if std::env::var_os("VF_C06_DEBUG").is_some() {
+        // replay aid: the executed plan with its metrics
+        eprintln!("{}", datafusion_physical_plan::display::DisplayableExecutionPlan::with_metrics(built.plan.as_ref()).indent(true));
+    }
     if metric_sum(&built.plan, "spill_count") > 0 {
         labels.push("spilled".into());
     }
